@@ -7,7 +7,9 @@
 EXTENDS Data, CSV, IOUtils
 
 OutFile == IOEnv.C13_OUT
-EmitTerminal == Terminal => CSVWrite("%1$s %2$s", <<Len(hist), hist>>, OutFile)
+Emit(h) == CSVWrite("%1$s %2$s", <<Len(h), h>>, OutFile)
+EmitTerminal == /\ Terminal => Emit(hist)
+                /\ BuildComplete => Emit(hist \o TailCodes)
 
 \* ---- leaf shapes ----
 C1 == {"custom"}
@@ -17,7 +19,11 @@ Lens_2x2   == <<1..2, 0..2>>
 Lens_2x3   == <<1..3, 0..3>>
 Lens_3x2   == <<1..2, 1..2, 0..2>>
 Lens_3x3   == <<1..3, 1..3, 0..3>>
+Lens_q     == <<{2}, {0, 1, 2}>>
+Lens_q2    == <<{2}, {1, 3}>>
 Lens_f22   == <<{2}, {2}>>
+Lens_f21   == <<{2}, {1}>>
+Lens_k     == <<{0, 2}, {0, 1}>>
 Lens_f212  == <<{2}, {1}, {2}>>
 Lens_f321  == <<{3}, {2}, {1}>>
 Lens_sim   == <<1..4, 0..4, 1..3, 0..5>>
